@@ -9,7 +9,8 @@ Case types are the trees of harness/props/c31.py (`['array', T]`, `['struct', [[
     ['locus', contig, position]
     ['iv', start, end, includes_start, includes_end]
     ['arr', [v…]]  ['set', [v…]]  ['dict', [[k, v]…]]  ['tup', [v…]]  ['st', [v… in field order]]
-    ['nd', [dims…], [v… in C (row-major) order], 'C' | 'F']         (memory order of the numpy array that is built)
+    ['nd', [dims…], [v… in C (row-major) order], 'C' | 'F' (, numpy dtype name)]   (memory order — and, optionally, a numpy dtype
+                                           other than the element type's own — of the numpy array that is built)
 """
 import math
 import struct
@@ -46,6 +47,17 @@ FLOATS32 = [0.0, -0.0, 1.0, -1.5, f32round(0.1), 1.401298464324817e-45, 3.402823
             float('-inf')]
 
 
+PY_ATTR_NAMES = ['values', 'items', 'keys', 'get', 'drop', 'select', 'annotate', '_fields', '_get_field', '__class__', '__dict__',
+                 '__len__', '__init__', '__getitem__', '__hash__', 'd', 'position', 'end']   # not 'self': hl.Struct(self=…) is a TypeError
+
+
+# numpy dtypes, other than the element type's own, whose arrays the encoder accepts for a numeric element type
+ALT_DTYPES = {'i32': ['int8', 'int16', 'int64', 'uint8', 'uint16', 'uint32', 'uint64'],
+              'i64': ['int8', 'int16', 'int32', 'uint8', 'uint16', 'uint32', 'uint64'],
+              'f32': ['float16', 'float64'], 'f64': ['float16', 'float32']}
+F16_VALUES = [0.0, -0.0, 1.0, -1.5, 0.5, 2.0, 65504.0, 6.103515625e-05, float('nan'), float('inf'), float('-inf')]   # exact in binary16
+
+
 def gen_type(rng, depth, *, locus=True, ndarray=True, numeric_nd=False, key=False):
     """a type with values (no void / rng_state / stream)"""
     if depth <= 1 or rng.random() < 0.3:
@@ -73,7 +85,12 @@ def gen_type(rng, depth, *, locus=True, ndarray=True, numeric_nd=False, key=Fals
         return ['dict', gen_type(rng, depth - 1, key=True, **sub), gen_type(rng, depth - 1, key=key, **sub)]
     if k == 'struct':
         n = rng.choice([0, 1, 2, 2, 3, 3, 8, 9])
-        names = rng.sample(['a', 'b', 'c', 'x y', 'é', 'key', 'value', 'f1', 'f2', 'f3', 'contig', 'start', ''], n)
+        pool = ['a', 'b', 'c', 'x y', 'é', 'key', 'value', 'f1', 'f2', 'f3', 'contig', 'start', '']
+        if rng.random() < 0.35:
+            # names that are also attributes / methods of hl.Struct, Mapping or object: a field must be fetched by item, never by
+            # attribute (`getattr(x, 'values')` is the bound method Mapping.values)
+            pool = pool[:6] + PY_ATTR_NAMES
+        names = rng.sample(pool, n)
         return ['struct', [[nm, gen_type(rng, depth - 1 if n < 8 else 1, key=key, **sub)] for nm in names]]
     n = rng.choice([0, 1, 2, 3, 9])
     return ['tuple', [gen_type(rng, depth - 1 if n < 9 else 1, key=key, **sub) for _ in range(n)]]
@@ -149,7 +166,19 @@ def gen_value(rng, t, p_missing=0.15, top=True, allow_missing=True):
         total = 1
         for d in dims:
             total *= d
-        return ['nd', dims, [gen_value(rng, t[1], 0, False, allow_missing=False) for _ in range(total)], rng.choice(['C', 'C', 'F'])]
+        order = rng.choice(['C', 'C', 'F'])
+        alt = ALT_DTYPES.get(t[1][0])
+        if alt and rng.random() < 0.4:
+            # the same numbers held in a numpy array of ANOTHER dtype (what `hl.literal(np.array([1, 2]), 'ndarray<int32, 1>')`
+            # passes: default int64 data): the width of an encoded element is the Hail element type's, never numpy's
+            dt = rng.choice(alt)
+            if t[1][0] in ('i32', 'i64'):
+                pool = [0, 1, 2, 3, 100, 127] + ([-1, -128] if not dt.startswith('u') else [200, 255])
+                data = [rng.choice(pool) for _ in range(total)]
+            else:
+                data = [['f', f2bits(rng.choice(F16_VALUES))] for _ in range(total)]
+            return ['nd', dims, data, order, dt]
+        return ['nd', dims, [gen_value(rng, t[1], 0, False, allow_missing=False) for _ in range(total)], order]
     raise ValueError(k)
 
 
@@ -284,7 +313,7 @@ class HailValues:
                 for i, x in enumerate(v[2]):
                     flat[i] = self.to_py(t[1], x, True)
             else:
-                flat = np.array([self.to_py(t[1], x) for x in v[2]], dtype=dt)
+                flat = np.array([self.to_py(t[1], x) for x in v[2]], dtype=(getattr(np, v[4]) if len(v) > 4 else dt))
             a = flat.reshape(v[1]) if v[1] else flat.reshape(())
             if v[3] == 'F' and len(v[1]) >= 2:
                 a = np.asfortranarray(a)
